@@ -256,14 +256,7 @@ Proof.
   destruct ud as [|u ud'].
   - destruct un as [|n un'].
     + (* the store's own dataset *)
-      simpl in Hk. unfold m_active, s_active, ctx_active.
-      destruct w as [c|]; [reflexivity|].
-      destruct (has_dataset_fe e Hd) as [F|F]; rewrite F in *; [reflexivity|].
-      destruct (e_union e); [|reflexivity]. simpl in Hk.
-      destruct (reads_default p) eqn:R; [discriminate|].
-      rewrite (eval_bu_indep (fun _ => true) true p W (graphs_in_all p W)
-                 (graph_at 0 a) (union_graph a) (named_graphs (named_of a) a) (graph_at 0 a) (union_graph a)); auto.
-      rewrite (filter_keep_all _ (named_graphs (named_of a) a)) by auto. reflexivity.
+      unfold m_active, s_active. destruct w as [c|]; reflexivity.
     + (* USING NAMED only *)
       simpl in Hk. destruct (graphs_outside (n :: un') p) eqn:G; [discriminate|].
       destruct (reads_default p) eqn:R; [discriminate|].
@@ -304,4 +297,50 @@ Proof.
   rewrite Sparql.Main.join_ctx_nil in P.
   - apply P. intros v Hv. simpl in Hv. congruence.
   - apply Sparql.Fragment.bu_wf. apply (Sparql.Agreement.frag_shape [] p [] (F [])).
+Qed.
+
+(* ------------------------------------------------------------------ *)
+(* DELETE WHERE: the solutions evalDeleteWhere computes (evalBGP for the triples
+   outside GRAPH, evalPart of a Graph node per block, _join) are the solutions of
+   the quad pattern read as a group graph pattern over the store's dataset *)
+
+Lemma m_ds_own e a :
+  m_ds e None [] [] a
+  = {| Sparql.Algebra.ds_default := ctx_active e a;
+       Sparql.Algebra.ds_named := named_graphs (s_named e [] [] a) a |}.
+Proof. unfold m_ds, s_named, m_active. destruct (has_dataset e); reflexivity. Qed.
+
+Lemma gok_ctx_active e a : NoDup a -> terms_nb a -> Sparql.Agreement.gok (ctx_active e a).
+Proof. intros. apply (gok_m_active e None [] [] a); auto. Qed.
+
+Theorem dw_solutions e tm a : NoDup a -> terms_nb a ->
+  Permutation (dw_omega e tm a) (s_omega e None [] [] (dw_alg tm) a).
+Proof.
+  intros Hn Hb. unfold dw_omega, s_omega, dw_alg. rewrite m_ds_own.
+  change (s_active e None [] [] a) with (ctx_active e a).
+  set (ds := {| Sparql.Algebra.ds_default := ctx_active e a;
+                Sparql.Algebra.ds_named := named_graphs (s_named e [] [] a) a |}).
+  set (g := ctx_active e a).
+  assert (Gn : Sparql.Agreement.graphs_nodup ds).
+  { unfold ds, s_named. destruct (has_dataset e); [apply graphs_nodup_named; auto using named_of_NoDup|].
+    split; simpl; [constructor|intros ng []]. }
+  assert (Nb : Sparql.Fragment.ds_nb ds).
+  { unfold ds. apply ds_nb_named; auto. }
+  assert (Gk : Sparql.Agreement.gok g) by (apply gok_ctx_active; auto).
+  assert (Step : forall blocks res acc,
+            Permutation res (Sparql.EvalBU.eval_bu ds g acc) ->
+            Permutation
+              (fold_left (fun r b => Sparql.Algebra.join_lists r (Sparql.EvalTD.eval_td ds g [] (block_alg b))) blocks res)
+              (Sparql.EvalBU.eval_bu ds g
+                 (fold_left (fun ac b => Sparql.Algebra.Join false ac (block_alg b)) blocks acc))).
+  { induction blocks as [|b r IH]; intros res acc P; simpl; [exact P|].
+    apply IH. simpl.
+    assert (Pb : Permutation (Sparql.EvalTD.eval_td ds g [] (block_alg b)) (Sparql.EvalBU.eval_bu ds g (block_alg b))).
+    { pose proof (Sparql.Agreement.pushdown ds Gn Nb (block_alg b) [] eq_refl g [] Gk eq_refl) as P0.
+      rewrite Sparql.Main.join_ctx_nil in P0.
+      - apply P0. intros v Hv. simpl in Hv. congruence.
+      - apply Sparql.Fragment.bu_wf. reflexivity. }
+    eapply Permutation_trans; [apply RV.Sparql.Proofs.join_lists_perm_l; exact P|].
+    apply Sparql.Agreement.join_lists_perm_r. exact Pb. }
+  apply Step. simpl. rewrite RV.Sparql.BgpProofs.eval_bgp_ext. apply Permutation_refl.
 Qed.
